@@ -629,6 +629,102 @@ func e16TypedCloseCase(seed uint64, n int, partial string) Case {
 	}}
 }
 
+
+// e16SiblingCase: long-lived monitors on a publisher whose OTHER subscribers
+// (plain subscriptions, monitors, filtered subscriptions) come and go while
+// events are being published, each closed by its owner right before an event
+// goes out.  Every long-lived monitor still gets exactly one callback per
+// published event, in order.
+func e16SiblingCase(seed uint64, n int) Case {
+	id := fmt.Sprintf("E16/sibling-churn/%d/%d", seed, n)
+	return Case{ID: id, Desc: map[string]interface{}{"seed": seed, "n": n, "what": "siblings of long-lived monitors are closed while events are in flight"}, Bubble: true, Run: func(r *Res) {
+		rng := kit.NewRng(kit.Mix(seed, uint64(n)+1690))
+		plan := &kit.Plan{Seed: rng.U64(), PYield: 120, PSleep: 30, MaxSleep: 60 * time.Microsecond}
+		if n%2 == 1 {
+			// hold a closing subscription between "done" and its removal from the publisher
+			// (coverage only; a library that logs differently is simply not held there)
+			plan.Targets = map[string]time.Duration{"subscription done": 200 * time.Microsecond}
+		}
+		core := kit.NewCore(plan)
+		g := newRootRig(core, nil)
+		defer g.stop(r, "C12")
+		u := smallUniverse()
+		g.root.MakeReady()
+		pub := g.root.Publisher()
+		var hs []*recHandler
+		var mons []kcache.Monitor
+		for i := 0; i < 4; i++ {
+			h := newRecHandler()
+			m, err := kcache.NewMonitor(pub, h)
+			if err != nil {
+				r.V("C16", "monitor-create-error", "%v", err)
+				return
+			}
+			hs = append(hs, h)
+			mons = append(mons, m)
+		}
+		g.barrier()
+		type closer interface{ Close() }
+		var sibs []closer
+		total := 60 + rng.Intn(60)
+		for i := 0; i < total; i++ {
+			switch rng.Intn(3) {
+			case 0:
+				if s, err := pub.Subscribe(); err == nil {
+					go func() {
+						for range s.Events() {
+						}
+					}()
+					sibs = append(sibs, s)
+				}
+			case 1:
+				if m, err := kcache.NewMonitor(pub, newRecHandler()); err == nil {
+					sibs = append(sibs, m)
+				}
+			case 2:
+				if s, err := pub.SubscribeWithFilter(filterFamily()[2].Build()); err == nil {
+					go func() {
+						for range s.Events() {
+						}
+					}()
+					sibs = append(sibs, s)
+				}
+			}
+			if len(sibs) > 0 && rng.Chance(60) {
+				k := rng.Intn(len(sibs))
+				victim := sibs[k]
+				sibs = append(sibs[:k], sibs[k+1:]...)
+				go victim.Close()
+				r.Add("siblings-closed-mid-stream", 1)
+				if rng.Bool() {
+					time.Sleep(time.Duration(rng.Intn(150)) * time.Microsecond)
+				}
+			}
+			if _, err := g.mutate(rng, u); err != nil {
+				r.V("C16", "publish-error", "%v", err)
+				return
+			}
+			if i%20 == 19 {
+				g.barrier() // keeps every backlog far below the buffer
+			}
+		}
+		g.barrier()
+		sent := g.sent
+		for i, h := range hs {
+			judgeCallbacks(r, fmt.Sprintf("long-lived monitor %d (siblings closed while %d events were published)", i, len(sent)), h.snapshot(), sent, 0, true)
+			r.Add("exact-stream-checks", 1)
+		}
+		for _, s := range sibs {
+			s.Close()
+		}
+		for _, m := range mons {
+			m.Close()
+		}
+		r.Key(id)
+		r.Sample = map[string]interface{}{"published": len(sent), "long_lived_monitors": len(hs)}
+	}}
+}
+
 func init() {
 	register("E16", func(tier string, seed uint64) []Case {
 		var cases []Case
@@ -651,6 +747,9 @@ func init() {
 			for i := 0; i < 4; i++ {
 				cases = append(cases, e16TypedCase(seed, rep*4+i, false, i%2 == 1))
 				cases = append(cases, e16TypedCase(seed, rep*4+i, true, false))
+			}
+			for i := 0; i < 6; i++ {
+				cases = append(cases, e16SiblingCase(seed, rep*6+i))
 			}
 			for i, pk := range []string{"all", "no-create", "no-update", "no-delete"} {
 				cases = append(cases, e16TypedCloseCase(seed, rep*4+i, pk), e16TypedCloseCase(seed, rep*4+i+1, pk))
